@@ -502,6 +502,9 @@ func parsePossibilityStage(input *input, stageSet *StageSet) error {
 		case '(', '[', '<', ')', ']': /* another clause began (or ended), this one didn't end */
 			return errors.New("Oh no. Another clause opened before StageSet finished")
 		case '!':
+			if stage.Name != "" { /* <nocheck!> is not <!nocheck> */
+				return errors.New("A '!' goes in front of a Stage, not inside or behind it :(")
+			}
 			input.Next()
 			if stage.Not {
 				return errors.New("Double-negation (!!) of a single Stage is not permitted :(")
